@@ -71,6 +71,8 @@ def atom_str(v, canon=True):
         return 's' + v.encode('utf-8', 'surrogatepass').hex()
     if type(v) is bool:
         return 't1' if v else 't0'
+    if type(v) is bytearray:
+        return 'a' + bytes(v).hex()
     if type(v) is int:
         return 'i' + zhex(v)
     if type(v) is float:
@@ -135,6 +137,7 @@ def parse_cache_str(s):
         if t == 'i': return int(r, 16)
         if t == 'f': return struct.unpack('!f', bytes.fromhex(r))[0]
         if t == 't': return r == '1'
+        if t == 'a': return bytearray.fromhex(r)
         return None
     for e in s.split(','):
         k, v = e.split('=', 1)
@@ -280,6 +283,7 @@ class Watch:
 class _Capture:
     depth = 0
     top = None          # (tape, stack, cache) of the latest outermost run_tape call
+    log = None          # the Log of the run in progress (forkstream's fork op records its raises there)
 
 
 _orig_run_tape = F.run_tape
@@ -307,6 +311,7 @@ def impl_run_script(script, cache_vals, cfg):
     Pins.now = cfg.now
     _Capture.top = None
     _Capture.depth = 0
+    _Capture.log = log
     out = None
     with Watch():
         try:
@@ -334,6 +339,7 @@ def impl_run_auth(scripts, cache_vals, cfg):
     Pins.now = cfg.now
     _Capture.top = None
     _Capture.depth = 0
+    _Capture.log = log
     v = None
     with Watch():
         v = F.run_auth_scripts(list(scripts), cache_vals, cfg.contract_objs(log), cfg.plugins(log),
@@ -446,7 +452,7 @@ class Model:
             elif r.startswith('= '):
                 r = r[2:]
                 # last field = model-only instrumentation (allocation requests)
-                if ' | ' in r and (line.startswith('RUN ') or line.startswith('AUTH ')):
+                if ' | ' in r and line.split(' ', 1)[0] in ('RUN', 'AUTH', 'RUNF', 'AUTHF'):
                     r, self.last_allocs = r.rsplit(' | ', 1)
                 return r
             else:
@@ -461,6 +467,14 @@ class Model:
     def run_script(self, script, cache_vals, cfg, fuel=20000):
         self.set_cfg(cfg)
         return self.cmd('RUN %d %s %s' % (fuel, hx(script), cache_str(cache_vals, False)))
+
+    def run_script_fork(self, fcode, script, cache_vals, cfg, fuel=20000):
+        self.set_cfg(cfg)
+        return self.cmd('RUNF %d %d %s %s' % (fuel, fcode, hx(script), cache_str(cache_vals, False)))
+
+    def run_auth_fork(self, fcode, scripts, cache_vals, cfg, fuel=20000):
+        self.set_cfg(cfg, auth=True)
+        return self.cmd('AUTHF %d %d %s %s' % (fuel, fcode, cache_str(cache_vals, False), ' '.join(hx(s) for s in scripts)))
 
     def run_auth(self, scripts, cache_vals, cfg, fuel=20000):
         self.set_cfg(cfg, auth=True)
@@ -513,4 +527,6 @@ def compare_auth(model, scripts, cache_vals, cfg, fuel=20000):
         return 'skip-unmodelled', i, m
     if m == 'fuel':
         return 'skip-fuel', i, m
+    if i != m and cfg.max_item_size < 256 and (_exn_text_moved(m) or _exn_text_moved(i)):
+        return 'skip-exntext', i, m      # message length decides a size check; messages are not modelled
     return ('agree' if i == m else 'differ'), i, m
